@@ -484,6 +484,10 @@ tb_done:
 		rc = KSI_PublicationsFile_getSignedDataLength(p, &sl); kx_out(" signedlen=%zu", sl);
 		KSI_PublicationsFile_getCertificates(p, &cl); KSI_PublicationsFile_getPublications(p, &pl);
 		kx_out(" ncert=%zu npub=%zu", KSI_CertificateRecordList_length(cl), KSI_PublicationRecordList_length(pl)); return rc; }
+	if (!strcmp(c0, "pubfileserialize")) { /* pubfileserialize <c> <p>: KSI_PublicationsFile_serialize on the parsed object (it rebuilds the object's raw image and signed length) */
+		KSI_CTX *c = ctxs[atoi(tok[1])]; KSI_PublicationsFile *p = pubfiles[atoi(tok[2])]; char *raw = NULL; size_t n = 0; int rc = KSI_PublicationsFile_serialize(c, p, &raw, &n);
+		if (rc == KSI_OK && raw) kx_outhex("hex", (unsigned char *)raw, n);
+		KSI_free(raw); return rc; }
 	if (!strcmp(c0, "pubfileverify")) { KSI_CTX *c = ctxs[atoi(tok[1])]; KSI_PublicationsFile *p = pubfiles[atoi(tok[2])]; const char *api = kv("api");
 		if (api && !strcmp(api, "ctx")) return KSI_verifyPublicationsFile(c, p);
 		return KSI_PublicationsFile_verify(p, c); }
